@@ -958,6 +958,8 @@ def run(ctx):
     ctx.rules["R16i"].floor = 1
     from .round12 import r09n
     r09n(ctx)
+    from .round12 import r09o
+    r09o(ctx)
 
 
 from ..selftest import Seed, unparse_seed  # noqa: E402
